@@ -201,7 +201,7 @@ def gen_ops(cfg, amap, rng, word_bytes):
         elif cls == "cold-rows":
             # every access opens a new row: ACT shortly before refresh requests
             for k in range(nops):
-                ops.append(Op(rng.choice([0, 0, 1, 2, 3, 5, 8, 13]), rng.random() < wr_frac,
+                ops.append(Op(0 if wl.get("dense") else rng.choice([0, 0, 1, 2, 3, 5, 8, 13]), rng.random() < wr_frac,
                               addr_of(rng.choice(hot_banks), rng.randrange(nrows), rng.randrange(ncolw))))
         elif cls == "idle":
             for k in range(nops):
